@@ -2,6 +2,7 @@
 from lib import cfg
 from rules import common
 
+CRATES = ("agdb",)
 EXPLANATION = (
     "Static analysis: (R18a) in GraphImpl::next_element every `return Some(_)` is reachable only through the "
     "not-removed edge of is_removed_index for that slot, the scanned range starts at index + 1 and ends at the capacity, "
